@@ -55,6 +55,7 @@ def check(rep: Report, ctx: Ctx) -> None:
     r59(rep, ctx)
     r510(rep, ctx)
     r511(rep, ctx)
+    r512(rep, ctx)
 
 
 # --------------------------------------------------------------------------
@@ -940,3 +941,80 @@ def r511(rep: Report, ctx: Ctx) -> None:
                    "conversion raises leaves an empty .puml and destroys a "
                    "good one from an earlier run" if bad else
                    "pv_to_puml_string(...) dominates the open()"))
+
+
+# --------------------------------------------------------------------------
+def r512(rep: Report, ctx: Ctx) -> None:
+    """Diagram nodes are identified by (type, occurrence).  A factory that
+    numbers its node with the current occurrence count must register the node
+    and advance the count for the *same* key on every path - otherwise the
+    next node of that type gets the same identity and the two collapse into
+    one graph node (an event / block delimiter silently disappears)."""
+    rep.rule("R5.12", "every diagram node gets a fresh identity: the "
+             "occurrence count read for a node is advanced for the same key, "
+             "and the node is added, on every path", 3)
+    graph = ctx.index.cls("PUMLGraph")
+    n = 0
+    for ms in graph.methods.values():
+        for m in ms:
+            reads = [c for c in ast.walk(m.node) if isinstance(c, ast.Call)
+                     and call_name(c) == "get_occurrence_count"
+                     and isinstance(c.func, ast.Attribute)
+                     and isinstance(c.func.value, ast.Name)
+                     and c.func.value.id == "self"]
+            if not reads or m.name in ("get_occurrence_count",
+                                       "increment_occurrence_count"):
+                continue
+            cfg = ctx.cfg(m)
+            for r in reads:
+                key = unparse(r.args[0]) if r.args else "?"
+                incs = [c for c in ast.walk(m.node) if isinstance(c, ast.Call)
+                        and call_name(c) == "increment_occurrence_count"
+                        and c.args and unparse(c.args[0]) == key]
+                adds = [c for c in ast.walk(m.node) if isinstance(c, ast.Call)
+                        and call_name(c) == "add_puml_node"]
+                rn = cfg.container(r)
+                from ..cfg import EXIT as _EXIT
+                # the loop header (if the read sits in a loop) or EXIT is the
+                # point by which the count must have advanced
+                loops = enclosing(m.node, r, (ast.For, ast.While))
+                goal = cfg.node(loops[-1]) if loops else _EXIT
+                ok = rn is not None and bool(incs) and cfg.every_path_passes(
+                    rn, goal, [cfg.container(c) for c in incs]) and bool(
+                    adds) and cfg.every_path_passes(
+                    rn, goal, [cfg.container(c) for c in adds])
+                n += 1
+                rep.ob("R5.12", f"{m.short}: count of {key[:40]}", ok, fi=m,
+                       node=r,
+                       detail=(f"{len(incs)} increment(s) for the same key, "
+                               f"{len(adds)} add_puml_node call(s)"
+                               + ("" if ok else " -- some path leaves the "
+                                  "factory with the count unchanged or the "
+                                  "node unregistered")))
+    if n < 3:
+        raise AnalysisError("PUMLGraph node factories not found")
+    # the event node remembers which node of the walked graph it stands for:
+    # loop bodies are attached through this reference (R5.4), so a node
+    # created without it keeps its placeholder name LOOP_n in the diagram
+    cen = ctx.func("PUMLGraph.create_event_node")
+    refs = [c for c in ast.walk(cen.node) if isinstance(c, ast.Call)
+            and call_name(c) == "add_parent_graph_node_to_node_ref"]
+    ok = len(refs) == 1 and cguards(ctx, cen, refs[0]) in (
+        [("cmp", "parent_graph_node", "IsNot", "None")], [])
+    rep.ob("R5.12", "an event node is registered under the walked-graph node "
+           "it stands for", ok, fi=cen, node=refs[0] if refs else cen.node,
+           detail="add_parent_graph_node_to_node_ref(parent_graph_node, node) "
+                  "whenever a parent node is given")
+    walk_mod = ctx.index.module("walk_puml_logic_graph")
+    for f in walk_mod.functions.values():
+        for c in ast.walk(f.node):
+            if isinstance(c, ast.Call) and call_name(c) == "create_event_node":
+                a = actual(c, cen, "parent_graph_node")
+                src = actual(c, cen, "event_name")
+                ok = isinstance(a, ast.Attribute) and a.attr == "uid" \
+                    and isinstance(src, ast.Attribute) and unparse(
+                        a.value) == unparse(src.value)
+                rep.ob("R5.12", f"{f.short}: the created node refers to the "
+                       "walked node it was made from", ok, fi=f, node=c,
+                       detail=f"event_name={unparse(src)}, parent_graph_node="
+                              f"{unparse(a)}")
